@@ -484,3 +484,337 @@ theorem parseMoreW {f : Nat} (ih : SpecsW f) (self acc : Node) (p : P) (hc : Cur
       · exact Sat.pure ⟨hc, [], Ext.refl hacc, rfl⟩
 
 end Ecal.Parse
+
+namespace Ecal.Parse
+open Ecal.Lex
+
+theorem compat_term {k : Kind} {l : Led} (h : kindCompat k .term l = true) : k = .terminal := by
+  cases k <;> cases l <;> simp_all [kindCompat]
+theorem compat_prefix {k : Kind} {l : Led} (h : kindCompat k .prefix l = true) : k = .plusminus ∨ k = .prefix1 := by
+  cases k <;> cases l <;> simp_all [kindCompat]
+theorem compat_import {k : Kind} {l : Led} (h : kindCompat k .import_ l = true) : k = .import_ := by
+  cases k <;> cases l <;> simp_all [kindCompat]
+theorem compat_sink {k : Kind} {l : Led} (h : kindCompat k .sink l = true) : k = .sink := by
+  cases k <;> cases l <;> simp_all [kindCompat]
+theorem compat_func {k : Kind} {l : Led} (h : kindCompat k .func l = true) : k = .function := by
+  cases k <;> cases l <;> simp_all [kindCompat]
+theorem compat_return {k : Kind} {l : Led} (h : kindCompat k .return_ l = true) : k = .return_ := by
+  cases k <;> cases l <;> simp_all [kindCompat]
+theorem compat_identifier {k : Kind} {l : Led} (h : kindCompat k .identifier l = true) : k = .identifier := by
+  cases k <;> cases l <;> simp_all [kindCompat]
+theorem compat_guard {k : Kind} {l : Led} (h : kindCompat k .guard l = true) : k = .if_ := by
+  cases k <;> cases l <;> simp_all [kindCompat]
+theorem compat_loop {k : Kind} {l : Led} (h : kindCompat k .loop l = true) : k = .loop := by
+  cases k <;> cases l <;> simp_all [kindCompat]
+theorem compat_try {k : Kind} {l : Led} (h : kindCompat k .try_ l = true) : k = .try_ := by
+  cases k <;> cases l <;> simp_all [kindCompat]
+theorem compat_mutex {k : Kind} {l : Led} (h : kindCompat k .mutex l = true) : k = .mutex := by
+  cases k <;> cases l <;> simp_all [kindCompat]
+theorem compat_block {k : Kind} {l : Led} (h : kindCompat k .block l = true) : False := by
+  cases k <;> cases l <;> simp_all [kindCompat]
+
+def tryRestSig (c : Sig) : Bool := c.1 = "except" || c.1 = "otherwise" || c.1 = "finally"
+
+theorem all_except_tryRest {e : List Sig} (h : e.all exceptSig = true) : e.all tryRestSig = true := by
+  simp only [List.all_eq_true] at h ⊢
+  intro x hx
+  have := h x hx
+  simp [exceptSig] at this
+  simp [tryRestSig, this]
+
+theorem shapeOk_try {nm : String} {k : Nat} {r : List Sig} (h : kindOf nm = .try_) :
+    shapeOk nm (("statements", k) :: r) = r.all tryRestSig := by
+  simp only [shapeOk, h]; simp; rfl
+
+theorem wf_in_len {n : Node} (h : WellFormed n = true) (hn : n.name = "in") : n.children.length = 2 := by
+  have := ((wf_iff n).1 h).2
+  rw [hn] at this
+  simpa [shapeOk, show kindOf "in" = .binary by decide, sigs] using this
+
+/-- a finished `otherwise { … }` / `finally { … }` clause -/
+theorem wf_blockOnly {o r : Node} {k : Nat} (hf : Fresh o) (hk : kindOf o.name = .blockOnly)
+    (h : Ext o r [("statements", k)]) : WellFormed r = true := by
+  refine h.wf ?_
+  rw [h.sg, hf.sigs, h.name]
+  simp [shapeOk, hk]
+
+/-- a node built on the fresh node `self` -/
+theorem resW_of_ext {self r : Node} {e : List Sig} (hf : Fresh self) (h : Ext self r e)
+    (hs : shapeOk self.name e = true) : ResW r := by
+  obtain ⟨t, ht⟩ := hf.tok
+  refine ⟨⟨t, h.tok.trans ht⟩, h.wf ?_, hf.inOk.of_eq h.tok h.name⟩
+  rw [h.sg, hf.sigs, h.name]; simpa using hs
+
+end Ecal.Parse
+
+namespace Ecal.Parse
+open Ecal.Lex
+
+theorem nudOfW {f : Nat} (ih : SpecsW f) (self : Node) (p : P) (hc : Cur p) (hf : Fresh self)
+    (hnud : self.nud ≠ .none) :
+    Sat (nudOf (f+1) self) p (fun r p' => Cur p' ∧ ResW r) ET := by
+  rw [nudOf]
+  obtain ⟨stok, hstok⟩ := hf.tok
+  have hcompat : kindCompat (kindOf self.name) self.nud self.led = true := by
+    rcases hf.compat with h | h
+    · exact h
+    · exact absurd h.1 hnud
+  split
+  · next h => exact absurd h hnud
+  · -- term
+    next hx =>
+    rw [hx] at hcompat
+    have hk := compat_term hcompat
+    exact Sat.pure ⟨hc, resW_of_ext hf (Ext.refl hf.KW) (by simp [shapeOk, hk])⟩
+  · -- inner
+    wpr (ih.run _ _ hc)
+    intro e p1 ⟨hc1, hr1⟩
+    wpr (skipToken_spec _ hc1)
+    intro _ p2 ⟨hc2, _⟩
+    exact Sat.pure ⟨hc2, hr1⟩
+  · -- prefix
+    next hx =>
+    rw [hx] at hcompat
+    have hk := compat_prefix hcompat
+    wpr (ih.run _ _ hc)
+    intro e p1 ⟨hc1, hr1⟩
+    exact Sat.pure ⟨hc1, resW_of_ext hf (Ext.add1 hf.KW hr1.2.1) (by rcases hk with hk | hk <;> simp [shapeOk, hk])⟩
+  · -- import
+    next hx =>
+    rw [hx] at hcompat
+    have hk := compat_import hcompat
+    wpr (acceptChild_spec _ hc)
+    intro s p1 ⟨hc1, _, hf1, hid1⟩
+    wpr (skipToken_spec _ hc1)
+    intro _ p2 ⟨hc2, _⟩
+    wpr (acceptChild_spec _ hc2)
+    intro i p3 ⟨hc3, _, hf3, hid3⟩
+    obtain ⟨hw1, hn1⟩ := accept_wf hf1 hid1 (Or.inl rfl)
+    obtain ⟨hw3, hn3⟩ := accept_wf hf3 hid3 (Or.inr rfl)
+    have hx1 := Ext.add1 hf.KW hw1
+    have hx3 := hx1.trans (Ext.add1 hx1.kw hw3)
+    exact Sat.pure ⟨hc3, resW_of_ext hf hx3 (by
+      simp [T_STRING, T_IDENTIFIER] at hn1 hn3
+      simp [shapeOk, hk, hn1, hn3])⟩
+  · -- sink
+    next hx =>
+    rw [hx] at hcompat
+    have hk := compat_sink hcompat
+    wpr (acceptChild_spec _ hc)
+    intro nm p1 ⟨hc1, _, hf1, hid1⟩
+    obtain ⟨hw1, hn1⟩ := accept_wf hf1 hid1 (Or.inr rfl)
+    have hx1 := Ext.add1 hf.KW hw1
+    wpr (ih.sinkAttrs _ _ hc1 hx1.kw)
+    intro s2 p2 ⟨hc2, e2, hs2⟩
+    wlast (ih.innerStatements _ _ hc2 hs2.kw)
+    intro r p3 ⟨hc3, k, hs3⟩
+    refine ⟨hc3, resW_of_ext hf ((hx1.trans hs2).trans hs3) ?_⟩
+    simp [T_IDENTIFIER] at hn1
+    simp [shapeOk, hk, hn1]
+    exact ⟨k, by rw [← List.cons_append, List.getLast?_append]; rfl⟩
+  · -- func
+    next hx =>
+    rw [hx] at hcompat
+    have hk := compat_func hcompat
+    apply Sat.bind (Q1 := fun s1 q => Cur q ∧ ∃ e, Ext self s1 e ∧ (e = [] ∨ ∃ n, e = [("identifier", n)]))
+      (E1 := ET) ?_ (fun _ he => he)
+    · intro s1 p1 ⟨hc1, e1, hs1, he1⟩
+      wpr (skipToken_spec _ hc1)
+      intro _ p2 ⟨hc2, _⟩
+      smk
+      wpr (ih.exprList _ _ _ hc2 (kw_params _))
+      intro ps p3 ⟨hc3, e3, hs3⟩
+      wpr (skipToken_spec _ hc3)
+      intro _ p4 ⟨hc4, _⟩
+      have hwp : WellFormed ps = true := hs3.wf_container (by rw [name_params]; decide)
+      have hpn : ps.name = "params" := hs3.name.trans (name_params _ _)
+      wlast (ih.innerStatements _ _ hc4 (hs1.kw.add hwp))
+      intro r p5 ⟨hc5, k, hs5⟩
+      refine ⟨hc5, resW_of_ext hf (hs1.trans hs5.of_add) ?_⟩
+      rcases he1 with rfl | ⟨n, rfl⟩ <;> simp [shapeOk, hk, hpn]
+    · wpr (curId_spec hc)
+      rintro id _ ⟨rfl, _⟩
+      split
+      · wpr (acceptChild_spec _ hc)
+        intro i p1 ⟨hc1, _, hf1, hid1⟩
+        obtain ⟨hw1, hn1⟩ := accept_wf hf1 hid1 (Or.inr rfl)
+        simp [T_IDENTIFIER] at hn1
+        exact Sat.pure ⟨hc1, _, Ext.add1 hf.KW hw1, Or.inr ⟨i.children.length, by rw [hn1]⟩⟩
+      · exact Sat.pure ⟨hc, [], Ext.refl hf.KW, Or.inl rfl⟩
+  · -- return
+    next hx =>
+    rw [hx] at hcompat
+    have hk := compat_return hcompat
+    wpr (tokOf_spec _ hstok)
+    rintro _ _ ⟨rfl, rfl⟩
+    wpr (cur_spec hc)
+    rintro cn _ ⟨rfl, hcn, hfc⟩
+    obtain ⟨ct, hct⟩ := hfc.tok
+    wpr (tokOf_spec _ hct)
+    rintro _ _ ⟨rfl, rfl⟩
+    split
+    · wpr (ih.run _ _ hc)
+      intro e p1 ⟨hc1, hr1⟩
+      exact Sat.pure ⟨hc1, resW_of_ext hf (Ext.add1 hf.KW hr1.2.1) (by simp [shapeOk, hk])⟩
+    · exact Sat.pure ⟨hc, resW_of_ext hf (Ext.refl hf.KW) (by simp [shapeOk, hk])⟩
+  · -- identifier
+    next hx =>
+    rw [hx] at hcompat
+    have hk := compat_identifier hcompat
+    wlast (ih.parseMore _ _ _ hc ⟨stok, hstok⟩ hf.KW)
+    intro r p1 ⟨hc1, e, hs1, hall⟩
+    exact ⟨hc1, resW_of_ext hf hs1 (by rw [shapeOk_identifier hk]; exact hall)⟩
+  · -- list
+    next hx =>
+    smk
+    have hkw : KW (instanceOf p.braceBlock T_LIST self.tok) := by
+      rw [inst_list]; exact KW.mk0 _ _ _ _ _ _ (by simp [hstok])
+    wpr (ih.exprList _ _ _ hc hkw)
+    intro st p1 ⟨hc1, e1, hs1⟩
+    wpr (skipToken_spec _ hc1)
+    intro _ p2 ⟨hc2, _⟩
+    have htok : st.tok = some stok := by rw [hs1.tok, instanceOf_tok]; exact hstok
+    refine Sat.pure ⟨hc2, ⟨stok, htok⟩, hs1.wf_container (by rw [name_list]; decide), ?_⟩
+    intro t' ht' hid
+    obtain ⟨t, ht, h | ⟨b, htab⟩⟩ := hf.entry'
+    · exact absurd h.1 hnud
+    · rw [hx] at htab
+      have := table_list_id htab
+      rw [ht] at hstok; cases hstok
+      rw [htok] at ht'; cases ht'
+      omega
+  · -- map
+    next hx =>
+    smk
+    have hkw : KW (instanceOf p.braceBlock T_MAP self.tok) := by
+      rw [inst_map]; exact KW.mk0 _ _ _ _ _ _ (by simp [hstok])
+    wpr (ih.exprList _ _ _ hc hkw)
+    intro st p1 ⟨hc1, e1, hs1⟩
+    wpr (skipToken_spec _ hc1)
+    intro _ p2 ⟨hc2, _⟩
+    have htok : st.tok = some stok := by rw [hs1.tok, instanceOf_tok]; exact hstok
+    refine Sat.pure ⟨hc2, ⟨stok, htok⟩, hs1.wf_container (by rw [name_map]; decide), ?_⟩
+    intro t' ht' hid
+    obtain ⟨t, ht, h | ⟨b, htab⟩⟩ := hf.entry'
+    · exact absurd h.1 hnud
+    · rw [hx] at htab
+      have := table_map_id htab
+      rw [ht] at hstok; cases hstok
+      rw [htok] at ht'; cases ht'
+      omega
+  · -- guard (if)
+    next hx =>
+    rw [hx] at hcompat
+    have hk := compat_guard hcompat
+    wpr (ih.guardAndStatements _ _ hc hf.KW)
+    intro s1 p1 ⟨hc1, k1, hs1⟩
+    wpr (ih.elifs _ _ hc1 hs1.kw)
+    intro s2 p2 ⟨hc2, e2, hs2, hsh2⟩
+    wpr (curId_spec hc2)
+    rintro id _ ⟨rfl, _⟩
+    split
+    · wpr (skipToken_spec _ hc2)
+      intro _ p3 ⟨hc3, _⟩
+      smk
+      smk
+      have hwt : WellFormed (instanceOf p3.braceBlock T_TRUE none) = true := by
+        rw [inst_true]; decide
+      obtain ⟨hwf, hname, hlen⟩ := wf_guard1 p3.braceBlock hwt
+      wlast (ih.innerStatements _ _ hc3 (hs2.kw.add hwf))
+      intro r p4 ⟨hc4, k4, hs4⟩
+      have h5 := hs4.of_add
+      rw [hname, hlen] at h5
+      refine ⟨hc4, resW_of_ext hf ((hs1.trans hs2).trans h5) ?_⟩
+      simp [shapeOk, hk, ifShape, ifShape_append _ _ hsh2]
+    · refine Sat.pure ⟨hc2, resW_of_ext hf (hs1.trans hs2) ?_⟩
+      simp [shapeOk, hk, ifShape, hsh2]
+  · -- loop
+    next hx =>
+    rw [hx] at hcompat
+    have hk := compat_loop hcompat
+    wpr (braced_runW ih p hc)
+    intro e p1 ⟨hc1, _, hr1⟩
+    obtain ⟨et, het⟩ := hr1.1
+    wpr (tokOf_spec _ het)
+    rintro _ _ ⟨rfl, rfl⟩
+    apply Sat.bind (Q1 := fun g q => q = p1 ∧ WellFormed g = true ∧
+        ((g.name = "guard" ∧ g.children.length = 1) ∨ (g.name = "in" ∧ g.children.length = 2)))
+      (E1 := ET) ?_ (fun _ he => he)
+    · rintro g _ ⟨rfl, hwg, hg⟩
+      wlast (ih.innerStatements _ _ hc1 (hf.KW.add hwg))
+      intro r p3 ⟨hc3, k, hs3⟩
+      refine ⟨hc3, resW_of_ext hf hs3.of_add ?_⟩
+      rcases hg with ⟨h1, h2⟩ | ⟨h1, h2⟩ <;> simp [shapeOk, hk, h1, h2]
+    · split
+      · smk
+        obtain ⟨hwf, hname, hlen⟩ := wf_guard1 p1.braceBlock hr1.2.1
+        exact Sat.pure ⟨rfl, hwf, Or.inl ⟨hname, hlen⟩⟩
+      · next hid =>
+        have hin : e.name = "in" := hr1.2.2 _ het (by simpa [T_IN] using hid)
+        exact Sat.pure ⟨rfl, hr1.2.1, Or.inr ⟨hin, wf_in_len hr1.2.1 hin⟩⟩
+  · -- try
+    next hx =>
+    rw [hx] at hcompat
+    have hk := compat_try hcompat
+    wpr (ih.innerStatements _ _ hc hf.KW)
+    intro t1 p1 ⟨hc1, k1, hs1⟩
+    wpr (ih.excepts _ _ hc1 hs1.kw)
+    intro t2 p2 ⟨hc2, e2, hs2, hall2⟩
+    apply Sat.bind (Q1 := fun t3 q => Cur q ∧ ∃ e, Ext self t3 (("statements", k1) :: e) ∧ e.all tryRestSig = true)
+      (E1 := ET) ?_ (fun _ he => he)
+    · intro t3 p3 ⟨hc3, e3, hs3, hall3⟩
+      wpr (curId_spec hc3)
+      rintro id _ ⟨rfl, _⟩
+      split
+      · wpr (acceptChild_spec _ hc3)
+        intro fi p4 ⟨hc4, _, hf4, hid4⟩
+        have hfn : fi.name = "finally" := accept_name hf4 hid4 (by decide) (by rfl)
+        wpr (ih.innerStatements _ _ hc4 hf4.KW)
+        intro fi2 p5 ⟨hc5, k5, hs5⟩
+        have hwf : WellFormed fi2 = true := wf_blockOnly hf4 (by rw [hfn]; decide) hs5
+        have hn2 : fi2.name = "finally" := hs5.name.trans hfn
+        refine Sat.pure ⟨hc5, resW_of_ext hf (hs3.trans (Ext.add1 hs3.kw hwf)) ?_⟩
+        rw [List.cons_append, shapeOk_try hk]
+        simp [List.all_append, hall3, tryRestSig, hn2]
+      · refine Sat.pure ⟨hc3, resW_of_ext hf hs3 ?_⟩
+        rw [shapeOk_try hk]; exact hall3
+    · wpr (curId_spec hc2)
+      rintro id _ ⟨rfl, _⟩
+      split
+      · wpr (acceptChild_spec _ hc2)
+        intro o p3 ⟨hc3, _, hf3, hid3⟩
+        have hon : o.name = "otherwise" := accept_name hf3 hid3 (by decide) (by rfl)
+        wpr (ih.innerStatements _ _ hc3 hf3.KW)
+        intro o2 p4 ⟨hc4, k4, hs4⟩
+        have hwf : WellFormed o2 = true := wf_blockOnly hf3 (by rw [hon]; decide) hs4
+        have hn2 : o2.name = "otherwise" := hs4.name.trans hon
+        refine Sat.pure ⟨hc4, _, (hs1.trans hs2).trans (Ext.add1 hs2.kw hwf), ?_⟩
+        simp [List.all_append, all_except_tryRest hall2, tryRestSig, hn2]
+      · exact Sat.pure ⟨hc2, _, hs1.trans hs2, all_except_tryRest hall2⟩
+  · -- mutex
+    next hx =>
+    rw [hx] at hcompat
+    have hk := compat_mutex hcompat
+    wpr (acceptChild_spec _ hc)
+    intro i p1 ⟨hc1, _, hf1, hid1⟩
+    obtain ⟨hw1, hn1⟩ := accept_wf hf1 hid1 (Or.inr rfl)
+    simp [T_IDENTIFIER] at hn1
+    wlast (ih.innerStatements _ _ hc1 (hf.KW.add hw1))
+    intro r p2 ⟨hc2, k, hs2⟩
+    refine ⟨hc2, resW_of_ext hf hs2.of_add ?_⟩
+    simp [shapeOk, hk, hn1]
+  · -- block: a fresh node never has this null denotation
+    next hx =>
+    rw [hx] at hcompat
+    exact (compat_block hcompat).elim
+
+theorem specsW : ∀ f, SpecsW f
+  | 0 => specsW_zero
+  | f+1 =>
+    have ih := specsW f
+    { run := runW ih, loopLed := loopLedW ih, nudOf := nudOfW ih, exprList := exprListW ih,
+      sinkAttrs := sinkAttrsW ih, guardAndStatements := guardAndStatementsW ih, elifs := elifsW ih,
+      excepts := exceptsW ih, exceptTypes := exceptTypesW ih, parseMore := parseMoreW ih,
+      innerStatements := innerStatementsW ih, moreStatements := moreStatementsW ih, topLoop := topLoopW ih }
+
+end Ecal.Parse
